@@ -92,10 +92,16 @@ def dropNeg : List Tok → List Tok
 /-- `… _ [@c] [!f] ) [@c] . …`: the unnamed wildcard is the last child pattern of the sibling before an anchor. -/
 def anchorAfterNestedWildcard (q : String) : Bool :=
   let toks := (tokenize (q.length + 1) q.toList #[]).toList
+  -- further closing parentheses (of plain groups / the node around a group), then the anchor
+  let rec closers : List Tok → Bool
+    | .cap _ :: r => closers r
+    | .rp :: r => closers r
+    | .dot :: _ => true
+    | _ => false
   let rec go : List Tok → Bool
     | .under :: rest =>
       (match dropNeg (dropCaps rest) with
-       | .rp :: r2 => (match dropCaps r2 with | .dot :: _ => true | _ => false)
+       | .rp :: r2 => closers r2
        | _ => false) || go rest
     | _ :: rest => go rest
     | [] => false
@@ -328,6 +334,12 @@ def superUse (sups : List String) (q : String) : String :=
   let (withKids, bare) := go toks
   if withKids then "true" else if bare then "bare" else "false"
 
+/-- Pattern `i` of the query (one pattern per line) contains no capture at all. -/
+def capturelessPattern (q : String) (i : Nat) : Bool :=
+  match (q.splitOn "\n")[i]? with
+  | some l => !(l.toList.any (· == '@'))
+  | none => false
+
 def hasQuantifierToken (q : String) : Bool :=
   let toks := (tokenize (q.length + 1) q.toList #[]).toList
   toks.any fun t => match t with | .quant _ => true | _ => false
@@ -380,7 +392,9 @@ def runCase (s : St) : String :=
           let partialB := bad.all fun x => model.any fun y => y.1 == x.1 && subBag x.2 y.2
           let wildKids := (s.query.splitOn "(_ ").length > 1
           let trailing := quant && (s.query.splitOn " .)").length > 1
-          let kind := if partialB then "unsound-partial-binding"
+          -- (a group left in the middle of a repetition yields a PARTIAL binding: ask for that family first)
+          let kind := if quantGroupQuantFirst s.query then "unsound-quantified-group-left-after-quantified-first-element"
+            else if partialB then "unsound-partial-binding"
             else if trailing && hasNestedChildPattern s.query then "unsound-quantified-trailing-anchor-nested"
             else if trailing then "unsound-quantified-trailing-anchor"
             else if wildKids && (s.query.splitOn "!").length > 1 then "unsound-wildroot-test-skipped"
@@ -395,7 +409,7 @@ def runCase (s : St) : String :=
         else if !quant && !completeB impl model then
           let bad := model.filter fun x => countOf x model > countOf x impl
           let subsumed := bad.all fun x => impl.any fun y => y.1 == x.1 && y != x && subBag x.2 y.2
-          let kind := if subsumed then "incomplete-subsumed" else if nestedAlternation s.query then "incomplete-nested-alternation-loses-inner-branches" else if trailingAnchorAfterGroup s.query then "incomplete-trailing-anchor-after-group" else if anchorAfterSupertype s.sups s.query then "incomplete-anchor-after-supertype" else if s.hasError && (s.query.splitOn "(ERROR").length > 1 && (s.query.splitOn ": ").length > 1 then "incomplete-field-under-error-node" else if (s.query.splitOn "[").length > 1 && (s.query.splitOn "(_ ").length > 1 then "incomplete-wildroot-branch-in-alternation" else if anchorAfterNestedWildcard s.query then "incomplete-anchor-after-nested-wildcard" else if anchorAfterAlternation s.query then "incomplete-anchor-after-uncaptured-alternation" else if uncapturedSubtree s.query then "incomplete-uncaptured-subtree" else if (s.query.splitOn "(MISSING").length > 1 then "incomplete-missing-uncaptured" else if (s.query.splitOn "(ERROR ").length > 1 then "incomplete-error-children-uncaptured" else if anchorAfterUncapturedSubtree s.query then "incomplete-anchor-after-uncaptured-subtree" else if anchorAfterUnnamedWildcard s.query then "incomplete-strict-anchor-after-uncaptured-unnamed-wildcard" else if anchorAfterUncaptured s.query then "incomplete-anchor-uncaptured" else "incomplete"
+          let kind := if subsumed then "incomplete-subsumed" else if capturelessPattern s.query bad.head!.1 then "incomplete-captureless-pattern" else if nestedAlternation s.query then "incomplete-nested-alternation-loses-inner-branches" else if trailingAnchorAfterGroup s.query then "incomplete-trailing-anchor-after-group" else if anchorAfterSupertype s.sups s.query then "incomplete-anchor-after-supertype" else if s.hasError && (s.query.splitOn "(ERROR").length > 1 && (s.query.splitOn ": ").length > 1 then "incomplete-field-under-error-node" else if (s.query.splitOn "[").length > 1 && (s.query.splitOn "(_ ").length > 1 then "incomplete-wildroot-branch-in-alternation" else if anchorAfterNestedWildcard s.query then "incomplete-anchor-after-nested-wildcard" else if anchorAfterAlternation s.query then "incomplete-anchor-after-uncaptured-alternation" else if uncapturedSubtree s.query then "incomplete-uncaptured-subtree" else if (s.query.splitOn "(MISSING").length > 1 then "incomplete-missing-uncaptured" else if (s.query.splitOn "(ERROR ").length > 1 then "incomplete-error-children-uncaptured" else if anchorAfterUncapturedSubtree s.query then "incomplete-anchor-after-uncaptured-subtree" else if anchorAfterUnnamedWildcard s.query then "incomplete-strict-anchor-after-uncaptured-unnamed-wildcard" else if anchorAfterUncaptured s.query then "incomplete-anchor-uncaptured" else "incomplete"
           s!"{s.id} judge=FAIL {kind} first={repr bad.head!} {info}"
         else if quant && onlyOptionalQuantifiers s.query && !(maximalMissing model impl).isEmpty then
           -- quantified patterns: which of several overlapping repetitions is reported is
